@@ -92,7 +92,8 @@ CONFIG = {
                 "const, reversal, omission ratio 0, probe), disabled entries incl. unknown names and garbage props, probabilities "
                 "from {absent,0,1,near 0/1,uniform}; oracles: shape/echo, disabled==absent (byte-identical), non-firing => "
                 "props:null and replaceable/removable without effect, p=1 fires / p=0 never, firing independent of the other "
-                "entries, monotone in p; frequency cases = N seeds per (position,p) within 6.5 sigma + 2. Non-trivial = >= 2 "
+                "entries, monotone in p, and independent of earlier requests (the full list after a same-seed prefix of it and after "
+                "another seed answers alike); frequency cases = N seeds per (position,p) within 6.5 sigma + 2. Non-trivial = >= 2 "
                 "enabled entries with a probability strictly between 0 and 1 (relation) / every frequency batch; distinct by case text",
         "assumptions": ["frequency acceptance band 6.5 sigma + 2 (false-alarm probability < 1e-9 per batch); N = 2000 quick, 20000 thorough"],
         "quick": {"checks": 8000, "shards": 8, "min_nontrivial": 10000},
@@ -225,7 +226,9 @@ CONFIG = {
                 "rewriting biases before a heuristic, 12% rejected requests) executed in one process with a deep snapshot (incl. the "
                 "spare capacity of JSON-decoded slices) of every request value and the bytes of every returned result, re-checked "
                 "after every step; report cases = fully probed requests where every bias report (fatigue lists, reversed values, "
-                "added criteria) and every state handed on is compared with the probe snapshot after the final method ran. "
+                "added criteria) and every state handed on is compared with the probe snapshot after the final method ran; histories "
+                "put a rejected relative of a request between it and its repetition, and a fresh-process phase (3 quick / 8 thorough "
+                "processes) decides the recorded first-time outcomes of the history cases again in another order. "
                 "Non-trivial = sequence with a repeated request or an aliasing-sensitive accepted request with >= 1 bias / report "
                 "case with all alternatives considered or the current choice from the considered set; distinct by case text",
         "assumptions": ["the probe hands `current` on unchanged (same pointer), so it observes exactly what the next stage receives"],
